@@ -47,6 +47,9 @@ type scriptT struct {
 	// a slow network: an accepted connection reaches the hub only after this many milliseconds, so what the users do next falls
 	// into the time a dial takes (TCP, TLS and websocket handshake are never instantaneous outside a test bench)
 	SlowDial int `json:"slowDial"`
+	// CancelPairingWithSKI pauses between its look into the registry and its clearing of the trust (hook hub.VerifPoint) until
+	// a dial that is under way has become a connection, at most 300 ms: a legal schedule of the call made likely
+	Gate bool `json:"gate"`
 }
 
 type evT struct {
@@ -285,6 +288,8 @@ type node struct {
 	inboxBusy bool
 	conns     []*liveConn // live.go
 	nconn     int
+	gateOn    bool
+	gateBase  int
 	connBase  int
 }
 
@@ -595,7 +600,13 @@ func runScript(s scriptT) obsT {
 			l.add(op.H, "OpUnregisterEnd", "")
 		case "Cancel":
 			l.add(op.H, "OpCancel", "")
+			n.mu.Lock()
+			n.gateOn, n.gateBase = s.Gate, n.nconn
+			n.mu.Unlock()
 			n.h.CancelPairingWithSKI(skis[other[op.H]])
+			n.mu.Lock()
+			n.gateOn = false
+			n.mu.Unlock()
 			registered[op.H] = false
 			l.add(op.H, "OpCancelEnd", "")
 		case "AutoOn", "AutoOff":
